@@ -128,12 +128,19 @@ TReset == /\ l <= N /\ Ev.ev = "reset"
           /\ hasIndex' = FALSE /\ hd' = EmptyFn /\ res' = Ok("init")
           /\ l' = l + 1
 
+\* the state a system-call level phase (validated separately by TraceFS.tla) left behind
+TAdopt == /\ l <= N /\ Ev.ev = "adopt"
+          /\ buckets' = ObsBuckets(Ev) /\ store' = ObsStore(Ev) /\ ext' = ObsExt(Ev)
+          /\ tmp' = Ev.tmp /\ hasIndex' = Ev.hasIndex
+          /\ UNCHANGED <<hd, res>>
+          /\ l' = l + 1
+
 \* a line the diagnostic driver has marked as already reported
 TSkip == /\ l <= N /\ Ev.ev = "skip"
          /\ UNCHANGED vars
          /\ l' = l + 1
 
-TNext == TCall \/ TEnv \/ TState \/ TReset \/ TSkip
+TNext == TCall \/ TEnv \/ TState \/ TReset \/ TSkip \/ TAdopt
 
 TSpec == TInit /\ [][TNext]_tvars
 
